@@ -849,7 +849,7 @@ def c03(prop, tier, seed):
     return core_check(prop, tier, seed, ["fdev", "ps2q", "subos", "kev", "kevl", "tsk", "tskq", "rearm"], ["fdev", "ps2q", "subos", "kev", "kevl", "tsk", "tskq", "rearm", "ps3", "pub2"],
                       "Focus: events of descriptor / timer / pubsub / signal / path / pid / task sources reach their owner with the registration userdata only while RUNNING; one-shot removal; poll batches of several sources in every order; errno left behind by callbacks; loop ends only on quit / no running module. "
                       "Configurations marked .loop are replayed a second time in loop mode: the loop is driven by blocking m_ctx_loop() calls (top-level steps executed from inside the wrapped epoll_wait, the stopping dispatch being what m_ctx_loop does before returning the quit code) and must show the same deliveries, states and return code.",
-                      Dq=5, Dt=7, loop_cfgs=["ps2q", "fdev", "life"], loop_cfgs_thorough=["tsk", "kev", "rearm", "subos"], sim_cfgs=["mix"])
+                      Dq=5, Dt=7, budget_q=35000, loop_cfgs=["ps2q", "fdev", "life"], loop_cfgs_thorough=["tsk", "kev", "rearm", "subos"], sim_cfgs=["mix"])
 
 
 @check("C20")
@@ -866,7 +866,7 @@ def c18(prop, tier, seed):
 
 @check("C04")
 def c04(prop, tier, seed):
-    return core_check(prop, tier, seed, ["mem", "memfd", "life", "pub2", "tick", "stash", "tsk", "tskq", "tb"],
+    return core_check(prop, tier, seed, ["mem", "memfd", "life", "pub2", "stash", "tsk", "tskq", "tb"],
                       ["mem", "memfd", "tsk", "tskq", "kev", "life", "ctx", "perm", "ps2q", "ps2", "pub2", "ps3", "bc2", "batch", "btmo", "stash", "stashb", "become", "fdev", "srca", "srcb", "subos", "tb", "tick"],
                       "C04 = memory and lifetime safety on every explored history: the union of the Core configurations replayed under ASan/UBSan "
                       "with the allocator ledger (nothing outstanding, nothing freed twice, in clean states), plus configurations in which the "
@@ -876,7 +876,7 @@ def c04(prop, tier, seed):
                       "or the loop stops (the function returns only when the library waits for it, or afterwards if it does not wait)."
                       " Configurations marked .sim are too large to enumerate: TLC's simulation mode samples behaviours (all features at once: 3 modules "
                       "with hooks, priorities, batching, stash, become, token bucket, descriptor / timer / signal / task sources, tick, retained events), "
-                      "the monitors are checked on every sampled state and every sampled behaviour is replayed.", Dq=5, Dt=6, sim_cfgs=["mix", "mixb", "mix4"], timeout_t=900, sim_rounds_t=8)
+                      "the monitors are checked on every sampled state and every sampled behaviour is replayed.", Dq=5, Dt=6, budget_q=35000, sim_cfgs=["mix", "mixb", "mix4"], timeout_t=900, sim_rounds_t=8)
 
 
 # ------------------------------------------------------------------------------------------
